@@ -162,6 +162,7 @@ struct Expect {
   size_t limit = 512;          // the client's size limit
   long full_size = -1;         // exact size of the complete message when known (measured in an earlier exchange), else -1
   size_t upper_bound = 0;      // size of the message without any compression
+  bool body_when_truncated = true;   // check what a truncated message still carries (C35); C37 only checks limit / TC / header
 };
 struct RespInfo { bool tc = false; bool complete = false; size_t len = 0; int records_present = 0; int compressed_names = 0; size_t max_ptr_src = 0; bool known_skipped = false; };
 
@@ -170,9 +171,11 @@ static inline bool labels_eq(const Labels &a, const Labels &b, bool nocase) {
   for (size_t i = 0; i < a.size(); i++) { if (nocase ? !eq_nocase(a[i], b[i]) : a[i] != b[i]) return false; }
   return true;
 }
-static inline size_t xrec_size(const XRec &r) { return wire_len(r.owner) + (r.opt ? 1 : 0) /* the root may be written as a pointer */ + 10 + (r.is_name ? wire_len(r.target) : r.datalen); }
+// upper bound of what a name takes: its uncompressed form, +1 because the final root may be written as a 2-byte pointer to an earlier root
+static inline size_t name_ub(const Labels &l) { return wire_len(l) + 1; }
+static inline size_t xrec_size(const XRec &r) { return name_ub(r.owner) + 10 + (r.is_name ? name_ub(r.target) : r.datalen); }
 static inline size_t uncompressed_size(const Expect &e) {
-  size_t n = 12; for (auto &q : e.q) n += wire_len(q.name) + 4;
+  size_t n = 12; for (auto &q : e.q) n += name_ub(q.name) + 4;
   for (int s = 0; s < 3; s++) for (auto &r : e.sec[s]) n += xrec_size(r);
   return n;
 }
@@ -218,6 +221,7 @@ static inline void check_response(const std::vector<uint8_t> &m, const Expect &e
   } else if (e.full_size >= 0) {
     CHECK((size_t)e.full_size <= e.limit, mkkey(P, "oversize-not-truncated"), "complete message has %ld bytes, limit %zu, but TC is clear (%zu bytes sent)", e.full_size, e.limit, n);
   }
+  if (tc && !e.body_when_truncated) return;
   // counts: complete => exactly what was added; truncated => never more than what was added
   size_t want_cnt[3] = {e.sec[0].size(), e.sec[1].size(), e.sec[2].size()};
   if (!tc) {
